@@ -370,11 +370,12 @@ fn run(op: &str, a: &[&str]) -> String {
             let repr = repr_of::<B>(a[3], a[4]);
             let ctx = usz(a[2]);
             let v = FBig::<R, B>::from_repr(repr.clone(), Context::new(ctx));
-            let w64 = std::panic::catch_unwind(std::panic::AssertUnwindSafe(|| {
+            // (a binary float is not converted to another base at all: nothing is handed over, nothing can be wide)
+            let w64 = B != 2 && std::panic::catch_unwind(std::panic::AssertUnwindSafe(|| {
                 FBig::<mode::HalfEven, B>::from_repr(repr.clone(), Context::new(ctx))
                     .with_base_and_precision::<2>(53).value().repr().significand().bit_len() > 53
             })).unwrap_or(true);
-            let w32 = std::panic::catch_unwind(std::panic::AssertUnwindSafe(|| {
+            let w32 = B != 2 && std::panic::catch_unwind(std::panic::AssertUnwindSafe(|| {
                 v.clone().with_base_and_precision::<2>(24).value().repr().significand().bit_len() > 24
             })).unwrap_or(true);
             let p64 = std::panic::catch_unwind(std::panic::AssertUnwindSafe(|| match v.to_f64() {
